@@ -182,6 +182,9 @@ CountsOK(s, d, o) ==
     /\ o.nd = NDovetails(s) /\ o.nc = NContainments(s) /\ o.ni = NInternals(s)
     /\ o.nde = NDeadEnds(s)
 
+\* unused_name() must return an identifier nobody carries (C09)
+FreshOK(s, e) == e.op.k = "unused" => (e.op.id2 \notin NamesOf(s) \cup PlaceholderIds(s))
+
 ExpFails(s, o) ==
   LET d == Derive(s) IN
   (IF VersionOK(s, o) THEN {} ELSE {"version"})
@@ -247,7 +250,7 @@ Next ==
            rf == ResFails(outs, e)
            unm == \E x \in outs : x.res = "unmodelled"
            cands == {x \in outs : ResMatches(x.res, e.res)}
-           good == {x \in cands : ExpFails(x.st, o) = {}}
+           good == {x \in cands : ExpFails(x.st, o) = {} /\ FreshOK(x.st, e)}
        IN
        IF unm THEN
           /\ (IF sf \cup stutter = {} THEN TRUE ELSE PrintT(<<"REJECT", Traces[tid].id, l, sf \cup stutter, "first">>))
@@ -261,7 +264,8 @@ Next ==
           /\ UNCHANGED ok
        ELSE
           /\ PrintT(<<"REJECT", Traces[tid].id, l,
-                      ExpFails((CHOOSE x \in cands : TRUE).st, o) \cup sf \cup stutter, "first">>)
+                      ExpFails((CHOOSE x \in cands : TRUE).st, o) \cup sf \cup stutter
+                        \cup (IF FreshOK((CHOOSE x \in cands : TRUE).st, e) THEN {} ELSE {"fresh"}), "first">>)
           /\ ok' = FALSE /\ UNCHANGED st
 
 Spec == Init /\ [][Next]_vars
